@@ -276,6 +276,22 @@ def model_apply(op, mp, vals):
         cols = list(t.cols) + [c for c in rec if c not in t.cols]
         rows = [{c: r.get(c) for c in cols} for r in t.rows] + [{c: rec.get(c) for c in cols}]
         return 'table', MT(cols, rows), None
+    if k == 'iadd':
+        t = T()
+        if 'o' in op:
+            ts = [t, mp[op['o']]]
+            cols = []
+            for t_ in ts:
+                for c in t_.cols:
+                    if c not in cols:
+                        cols.append(c)
+            rows = []
+            for t_ in ts:
+                rows.extend({c: r.get(c) for c in cols} for r in t_.rows)
+            return 'table', MT(cols, rows), None
+        rec = vals['rec']
+        cols = list(t.cols) + [c for c in rec if c not in t.cols]
+        return 'table', MT(cols, [{c: r.get(c) for c in cols} for r in t.rows] + [{c: rec.get(c) for c in cols}]), None
     if k == 'add_none':
         return 'table', T(), op['t']
     if k == 'copy':
@@ -405,6 +421,10 @@ def real_apply(op, pool, vals):
         return T() + (None if op.get('none', True) else 0)
     if k == 'copy':
         return T().copy()
+    if k == 'iadd':
+        x_ = T()
+        x_ += (pool[op['o']] if 'o' in op else vals['rec'])
+        return x_
     if k == 'new_pairs':
         return dictable([(c, v) for c, v in vals['pairs']])
     if k == 'new_from_table':
@@ -601,7 +621,7 @@ def gen_history(rng, nops):
         t = rng.randrange(len(mp))
         m = mp[t]
         dst = rng.randrange(len(mp) + 1) if len(mp) < 4 else rng.randrange(4)
-        k = rng.choice(['update', 'and', 'or', 'new_pairs', 'new_from_table', 'setitem', 'setitem', 'setbad', 'setcol_from', 'del', 'row', 'slice', 'slice', 'mask', 'mask', 'ints', 'project', 'tuple',
+        k = rng.choice(['iadd', 'iadd', 'update', 'and', 'or', 'new_pairs', 'new_from_table', 'setitem', 'setitem', 'setbad', 'setcol_from', 'del', 'row', 'slice', 'slice', 'mask', 'mask', 'ints', 'project', 'tuple',
                         'column', 'get', 'derive', 'derive_const', 'apply', 'relabel', 'do', 'drop', 'concat', 'concat', 'add', 'add_record',
                         'add_none', 'copy', 'new', 'new_from_rows_of'])
         free = [c for c in gen.COLS + ['g', 'h'] if c not in m.cols]
@@ -726,6 +746,15 @@ def gen_history(rng, nops):
             op = {'op': 'add_record', 't': t, 'rec': {c: gen.cell(rng) for c in ks}, 'dst': dst}
         elif k == 'add_none':
             op = {'op': 'add_none', 't': t, 'none': rng.random() < 0.6, 'dst': dst}
+        elif k == 'iadd' and m.n <= 8:
+            # `x += other` rebinds the slot to whatever the statement leaves in x
+            if rng.random() < 0.5:
+                o = rng.randrange(len(mp))
+                if mp[o].n + m.n <= 12:
+                    op = {'op': 'iadd', 't': t, 'o': o, 'dst': t}
+            else:
+                ks = gen.subset(rng, (m.cols or ['a']) + free[:1], 1)
+                op = {'op': 'iadd', 't': t, 'rec': {c: gen.cell(rng) for c in ks}, 'dst': t}
         elif k == 'copy':
             op = {'op': 'copy', 't': t, 'dst': dst}
         elif k == 'new_from_rows_of' and m.cols:
